@@ -26,7 +26,9 @@ FLOORS = {'quick': {'evaluations': 8000, 'nontrivial': 3000}, 'thorough': {'eval
 
 TEXTS = ['apple', 'Apple', 'APPLE', 'pear', 'a.c', 'abc', 'a*b', 'a?c', '[x]', 'x+y', 'pine apple', 'ap',
          # tildes in cells: literal tildes are written ~~ in a pattern, and a wildcard after ~~ is a live wildcard again
-         '~', '~a', 'v~x', '~*', 'a~b', '~~', 'v~', '~apple']
+         '~', '~a', 'v~x', '~*', 'a~b', '~~', 'v~', '~apple',
+         # words a date parser takes for dates: month and weekday names are plain texts
+         'May', 'may', 'mon', 'Sat', 'march', 'dec', 'sunday', 'Jan', 'noon', 'today', 'am', 'T']
 
 
 def crit_cell(rng, col):
